@@ -31,7 +31,7 @@ FLAG_INV = {
     "criterion_mismatch": "EndsOnCriterion", "ended_early": "EndsOnCriterion", "overshoot": "EndsOnCriterion",
     "left_running": "NothingRunningAtReturn", "no_stop_all": "NothingRunningAtReturn", "counters": "CountersMatch",
     "error_not_failed": "FailureContained", "resume_failed_run": "FailureContained",
-    "failure_limit": "FailureLimit", "failure_not_named": "FailureLimit",
+    "failure_limit": "FailureLimit", "failure_not_named": "FailureLimit", "failure_not_notified": "FailureNotifiedOnce",
     "delete_live": "DeleteOnlyWhenDead", "copy_missing": "CopySourceExists", "resume_ckpt_missing": "ResumeSourceExists",
     "stop_without_decision": "StopPauseDecided", "pause_without_decision": "StopPauseDecided",
 }
